@@ -10,14 +10,14 @@ _spec.loader.exec_module(fmtlib)
 
 RULE = ("two real shards (2 and 5 documents, symbols, 2 branches; 2.4 and 3.3 KB) written by ShardBuilder; variants: truncation at a "
         "byte, flip of one bit, garbage files (empty, 1..70000 bytes random / 0xff / zero), the witness files of the Coq refutation "
-        "theorems, the intact shards. thorough: ALL truncations and ALL single-bit flips of both shards (51k files); quick: a seeded "
+        "theorems, the intact shards. thorough: ALL truncations, ALL single-bit flips of the last 600 bytes (TOC, trailer, section tables) and a seeded sample of the other flips of both shards (17k files; all 51k with VERIF_C11_ALL=1); quick: a seeded "
         "sample biased to the TOC/section tables. Each file is put next to a healthy shard and served by NewDirectorySearcher in a "
         "subprocess (7 s in-process + 10 s parent watchdog, ulimit -v 4 GiB, GOMEMLIMIT): 5 searches (const, substring, file name, "
-        "symbol, regexp; Whole) + List; the healthy shard's results must equal the baseline. non-trivial = flips and truncations")
+        "symbol, regexp; Whole) + List (const and substring); the healthy shard's results must equal the baseline. non-trivial = flips and truncations")
 
 TRUSTED = ["hunt harness harness/overlay/search/zz_verif_c11_test.go (variant generator, subprocess watchdog, outcome classification, call-site extraction from goroutine dumps)",
            "hand-written model of the reader (Model/Format.v) over arbitrary bytes; tied to the implementation by (a) the byte-exact C09 correspondence on valid shards and (b) the outcome correspondence here: model says load error => implementation did not load; model says loads => no crash/hang",
-           "outside the theorems (hunt only): JSON metadata parsing, roaring bitmap, calculateStats, b-tree construction, match iterators, query evaluation",
+           "outside the theorems (hunt only): JSON metadata parsing, roaring bitmap, b-tree construction on unsorted keys, match iterators, query evaluation",
            "mmap semantics: reads inside the last page beyond the file size return zeros; files are not modified after being loaded"]
 
 OBS = {"error": 0, "served-ok": 1, "contained-crash": 2, "PROCESS-CRASH": 3, "HANG": 4, "api-error": 5}
@@ -32,7 +32,7 @@ def run(ctx):
     okc, msg = fmtlib.regen_consts(ctx)
     if not okc:
         broken.append(msg)
-    proofs = vf.coq_props(ctx, "C11", extra_targets=["Model/FormatRobust.vo"])
+    proofs = vf.coq_props(ctx, "C11", extra_targets=["Model/FormatRobust.vo", "Model/FormatStats.vo"])
     aok, aout = vf.audit()
     if not aok:
         proofs["ok"] = False
@@ -50,7 +50,7 @@ def run(ctx):
     wfile = os.path.join(ctx.tmp, "witnesses.json")
     nwit = 0
     if proofs["ok"]:
-        rc, out = vf.coq_eval_term(ctx, ["From ZV Require Import Lib.Base Model.Format Model.FormatRobust."], "witnesses2")
+        rc, out = vf.coq_eval_term(ctx, ["From ZV Require Import Lib.Base Model.Format Model.FormatRobust Model.FormatStats."], "witnesses3")
         m = re.search(r"r = \[(.*)\] : list \(list N\)", out)
         if rc == 0 and m:
             ws = []
@@ -60,7 +60,7 @@ def run(ctx):
             json.dump(ws, open(wfile, "w"))
         else:
             broken.append("could not evaluate the model's witness files: " + out[-600:])
-    n = ctx.n(110, 4000)
+    n = ctx.n(80, 800)
     hr = vf.go_harness(ctx, "search", "TestVerifC11$", ["search/zz_verif_c11_test.go"], n,
                        env={"VERIF_C11_WITNESSES": wfile}, timeout=900 if ctx.tier == "quick" else 5400)
     recs = hr["records"]
@@ -77,7 +77,7 @@ def run(ctx):
     if bases and outcomes and proofs.get("ok"):
         outcomes.sort(key=lambda r: r["id"])
         wi = 0
-        step = max(1, len([o for o in outcomes if o["base"] >= 0]) // ctx.n(50, 1500))
+        step = max(1, len([o for o in outcomes if o["base"] >= 0]) // ctx.n(40, 1500))
         k = 0
         for o in outcomes:
             obs = OBS.get(o["class"])
@@ -92,8 +92,8 @@ def run(ctx):
                 kind = {"trunc": 0, "flip": 1}.get(o["vkind"], 2)
                 cases.append("C11V %d%%nat %d %d %d %d" % (o["base"], kind, o["pos"], o["bit"], obs)); csrc.append(o)
         prelude = "Definition bases : list (list N) := [%s].\n" % "; ".join(nlist(h) for h in bases[0]["hex"])
-        ev = fmtlib.eval_cases(ctx, "C11", ["From ZV Require Import Lib.Base Model.Format Model.FormatRobust."],
-                               "c11case", "c11_mismatches bases", cases, budget=25 * (40 if ctx.tier == "quick" else 200),
+        ev = fmtlib.eval_cases(ctx, "C11", ["From ZV Require Import Lib.Base Model.Format Model.FormatRobust Model.FormatStats."],
+                               "c11case", "c11_mismatches_stats bases", cases, budget=25 * (40 if ctx.tier == "quick" else 200),
                                jobs=4 if ctx.tier == "quick" else 8, prelude=prelude)
         if not ev["ok"]:
             broken.append("model evaluation failed: " + ev["log"][-1500:])
@@ -102,7 +102,7 @@ def run(ctx):
     elif hr["rc"] == 0 and not outcomes:
         broken.append("harness produced no outcomes")
     # the model's witnesses must show the class the theorems predict for the repaired tree
-    expect = ["served-ok", "served-ok", "served-ok", "error", "api-error", "served-ok"]
+    expect = ["served-ok", "served-ok", "served-ok", "error", "contained-crash", "served-ok", "error"]
     wobs = [o["class"] for o in sorted(outcomes, key=lambda r: r["id"]) if o["vkind"] == "witness"]
     if hr["rc"] == 0 and nwit and wobs != expect[:len(wobs)]:
         # a crash/hang on a witness is already reported as an oracle failure with its replay
@@ -122,4 +122,4 @@ def run(ctx):
         cov["coqchk"] = proofs["coqchk"]
     return vf.finish(ctx, "proof", proofs, cov, failures=failures, broken=broken,
                      assumptions=["shard files are not modified after being loaded (mmap)",
-                                  "the theorems cover the modelled reader (header, TOC, section reads, delta decoders, verify, per-document reads); the rest of the reader is covered by the exhaustive hunt only"])
+                                  "the theorems cover the modelled reader (header, TOC, section reads, delta decoders, verify, calculateStats, per-document reads, per-shard error handling of the sharded searcher); the rest of the reader is covered by the hunt only"])
